@@ -857,6 +857,105 @@ fn bigput(cx: &mut Cx, addr: u32, len: usize)
 	}
 }
 
+/// a history judged by the dictionary oracle alone (`quiet <ops>`): for histories whose maps are too large to be dumped after every
+/// operation — many segments, segments of several KiB
+fn check_quiet(cx: &mut Cx, ops: &str)
+{
+	let input = format!("quiet {ops}");
+	let mut map = MemoryMap::new();
+	let mut sh = Shadow::new();
+	let r = guarded(||
+	{
+		for (i, op) in ops.split(';').filter(|s| !s.is_empty()).enumerate()
+		{
+			match real_op(&mut map, &mut sh, op)
+			{
+				Err(e) => return Some(format!("malformed op {i}: {e}")),
+				Ok((_, bad)) => if let Some(b) = bad.or_else(|| state_oracle(&map, &sh)) {return Some(format!("after op {i} ({}): {b}", &op[..op.len().min(60)]));},
+			}
+		}
+		None
+	});
+	cx.report.cases(ops.split(';').count() as u64);
+	match r
+	{
+		Err(p) => cx.report.oracle_fail(input, format!("panic: {p}")),
+		Ok(Some(what)) => cx.report.oracle_fail(input, what),
+		Ok(None) => (),
+	}
+}
+
+/// 20–60 separate segments, then every query and update around every one of them
+fn gen_many_segments(rng: &mut Rng) -> String
+{
+	let n = 20 + rng.below(41) as u32;
+	let base: u32 = *rng.pick(&[0u32, 0x1000, 0xFFFF_F000, 0x8000_0000 - 512]);
+	let pitch = 12 + rng.below(8) as u32;
+	let mut order: Vec<u32> = (0..n).collect();
+	for k in (1..order.len()).rev() {let j = rng.below(k as u64 + 1) as usize; order.swap(k, j);}
+	let mut ops: Vec<String> = Vec::new();
+	for i in &order {let len = 1 + rng.below(8) as usize; ops.push(format!("put:{}:{}", base + i * pitch, hex(&(0..len).map(|_| rng.next() as u8).collect::<Vec<_>>())));}
+	ops.push("len".to_owned());
+	ops.push("cnt".to_owned());
+	let top = base + n * pitch;
+	for _ in 0..120
+	{
+		let a = base.saturating_sub(3) + rng.below((top - base) as u64 + 8) as u32;
+		let b = a.saturating_add(rng.below(4 * pitch as u64) as u32);
+		ops.push(match rng.below(14)
+		{
+			0..=4 => format!("find:{a}:{}", rng.pick(&["e", "b", "a"])),
+			5 => format!("get:{a}:e"),
+			6 | 7 => format!("cr:{a}:{b}"),
+			8 | 9 => format!("ir:{a}:{b}"),
+			10 => format!("put:{a}:{}", hex(&(0..rng.below(6)).map(|_| rng.next() as u8).collect::<Vec<_>>())),
+			11 => format!("rr:{a}:{b}"),
+			12 => format!("rm:{a}"),
+			_ => "len".to_owned(),
+		});
+	}
+	// all three searches at the edges of every segment position and far outside
+	for i in (0..n).step_by(3) {for d in [-1i64, 0, 9] {let a = (base as i64 + (i * pitch) as i64 + d).clamp(0, 0xFFFF_FFFF); for m in ["e", "b", "a"] {ops.push(format!("find:{a}:{m}"));}}}
+	for a in [0u32, u32::MAX, base.saturating_sub(1), top.saturating_add(100)] {for m in ["e", "b", "a"] {ops.push(format!("find:{a}:{m}"));}}
+	ops.push(format!("cr:0:{}", u32::MAX));
+	ops.push(format!("ir:0:{}", u32::MAX));
+	ops.join(";")
+}
+
+/// segments of 1–5 KiB of non-constant data, cut from the front, the back and the middle (also leaving only a small part)
+fn gen_large_segments(rng: &mut Rng) -> String
+{
+	let mut ops: Vec<String> = Vec::new();
+	let base: u32 = *rng.pick(&[0u32, 0x2000_0000, 0xFFFF_0000]);
+	for s in 0..1 + rng.below(3) as u32
+	{
+		let first = base + s * 0x2000;
+		let len = 1024 + rng.below(4096) as u32;
+		let seed = rng.next();
+		ops.push(format!("put:{first}:{}", hex(&(0..len).map(|i| (seed.wrapping_mul(i as u64 + 1) >> 13) as u8 ^ i as u8).collect::<Vec<_>>())));
+		let last = first + len - 1;
+		for _ in 0..1 + rng.below(3)
+		{
+			let keep = 1 + rng.below(200) as u32;
+			let (lo, hi) = match rng.below(6)
+			{
+				0 => (first, last - keep),                                   // front cut, a small part kept at the back
+				1 => (first.saturating_sub(5), first + 1024 + rng.below(64) as u32),   // front cut of at least 1024 bytes, starting in the gap below
+				2 => (first + keep, last),                                    // back cut, a small part kept at the front
+				3 => (first + keep, last - keep),                             // middle
+				4 => (first + 1024, first + 1024 + rng.below(512) as u32),   // hole
+				_ => (first + rng.below(len as u64) as u32, last.saturating_add(rng.below(9) as u32)),
+			};
+			if lo <= hi {ops.push(format!("rr:{lo}:{hi}"));}
+			ops.push(format!("find:{}:e", first + rng.below(len as u64) as u32));
+			ops.push(format!("cr:{first}:{last}"));
+		}
+		if rng.chance(1, 2) {ops.push(format!("put:{}:{}", first + rng.below(len as u64) as u32, hex(&(0..rng.below(1500)).map(|_| rng.next() as u8).collect::<Vec<_>>())));}
+	}
+	ops.push(format!("ir:0:{}", u32::MAX));
+	ops.join(";")
+}
+
 pub fn run(_id: &str, cx: &mut Cx)
 {
 	cx.report.rule = "exhaustive: every history (one per tree node) of put/remove/remove_range/clear of length <= depth over the 58-op alphabet \
@@ -871,6 +970,7 @@ evaluations = ops + queries executed on the real map; non-trivial = every histor
 		let w: Vec<&str> = input.splitn(2, ' ').collect();
 		match w.as_slice()
 		{
+			["quiet", ops] => check_quiet(cx, ops),
 			["run", ops] =>
 			{
 				let reply = cx.model.ask(&format!("map run {ops}"));
@@ -942,6 +1042,15 @@ evaluations = ops + queries executed on the real map; non-trivial = every histor
 	let replies = cx.model.ask_many(&lines);
 	for (f, r) in fixed.iter().zip(replies.iter()) {check_run(cx, f, r);}
 	cx.report.sample(format!("run {} -> {}", fixed[0], replies[0]));
+
+	// histories with many segments / with large segments (dictionary oracle only); early, so that their failures are among the ones the report keeps
+	{
+		let k = if cx.thorough() {2000} else {200};
+		for _ in 0..k {let mut r = cx.rng.fork(); let h = gen_many_segments(&mut r); check_quiet(cx, &h);}
+		for _ in 0..k {let mut r = cx.rng.fork(); let h = gen_large_segments(&mut r); check_quiet(cx, &h);}
+		cx.report.hit_n("histories with 20-60 segments", k);
+		cx.report.hit_n("histories with segments of 1-5 KiB cut from the front / back / middle", k);
+	}
 
 	// data longer than the whole address space: must be rejected, map unchanged (the zeroed buffer is never touched by a
 	// correct `put`, so this costs nothing; lengths of 2^32 and more are only reachable on a 64-bit target)
